@@ -23,6 +23,10 @@ CHECKS = {
              text="On the IR of seeded runs: no two draws use the same key, a drawn key is never also split/folded, no key split twice (exclusive cond branches excepted); every scan body is analysed with a symbolic iteration index (i != j => different keys, any length); each choice equals the documented TFP sampler applied to its own sub-key and the reference parameters (lanes = elements of one batched draw with per-lane parameters, each with own bits).", ref="3 C07"),
  "C16": dict(technique="CrossHair symbolic execution (z3) of the real Selection.match / sel / Fn.filter / Fn.merge with symbolic names, paths and choice-map shapes; symjax for gf.filter on combinators",
              text="For ~45 enumerated selection-expression shapes (nesting <= 2) CrossHair confirms over all paths that following the real match chain selects a path iff the documented meaning does (Boolean algebra laws are the pointwise consequences); Fn.filter/Fn.merge partition law on nested dicts with symbolic keys; gf.filter on corpus programs (through modular_vmap) yields exactly the leaves selected per the documented meaning.", ref="3 C16"),
+ "C14": dict(level="other", technique="CrossHair (z3) on the real lowering rule with symbolic flags; per placement: abstract lowering of the traced IR (value independent) and key-provenance analysis of the symjax-encoded seed(f) IR",
+             text="(1) CrossHair confirms over all paths that the lowering rule raises the carried exception under the default flags. (2) For each placement (jit, scan, while, fori, cond, switch, map, grad, remat, custom_jvp/vjp, nested jit, depth-2 compositions) abstract lowering - no values, hence valid for all inputs - must raise the dedicated error, and running constructs that compile their body must raise too; plain jax.vmap over a site must raise. (3) seed(f): the encoded IR has no residual site at any depth and every drawn key derives from the key argument (a constant key = hidden randomness), or tracing raised the dedicated error. Level 'other': (2) executes the real lowering rule on the IR rather than a solver query.", ref="3 C14"),
+ "C12": dict(technique="Jaxpr-to-SMT encoding of resample / systematic_resample in log-domain mode (z3 nonlinear real arithmetic): inverse-CDF characterisation, floor/ceil bound, copy faithfulness, estimate preservation",
+             text="The real systematic_resample (logsumexp, cumsum, searchsorted's binary-search scan) is encoded with weights Log(P_i) and the offset u symbolic: indices in range, idx_j = inverse CDF of (j+u)/N, counts sum to N and lie in (N w_i - 1, N w_i + 1) for ALL weights and ALL u in (0,1); E[count_i] = N w_i as an interval-length identity; resample(): every output particle equals ONE input particle on all trace leaves, weights reset to 0, log_marginal_likelihood() unchanged, diagnostic weights = normalised old weights; categorical: the index site is categorical(logits = log weights up to a constant) with sample_shape (N,).", ref="3 C12"),
 }
 NA = {}
 
